@@ -155,12 +155,18 @@ CLAIMED = {
               "the COMPOSITION block of the written file (names, counts, concentrations to 1e-9 relative)."),
         design_ref='§8 C10'),
     'C12': dict(
-        technique='Lean 4 proof (structural induction over the token list of expand_data_card) + model↔code correspondence',
+        technique='Lean 4 proof (structural induction over the token list of expand_data_card; maximum over particles over a linear order) + model↔code correspondence (expansion, per-cell importance) + Lean point monitor',
         text=("Proved in Lean for token lists of any length: a card without shorthand is returned unchanged, nR repeats "
               "the previous entry n times, nM multiplies it, nI inserts n equally spaced values ending exactly at the "
               "next entry (linspace_length/last), nJ leaves n defaults; the maximum over two importance cards "
-              "(two_cards_maximum). The model of expand_data_card and of the importance-card merge is compared with the "
-              "code on generated and malformed token lists (values and error class)."),
+              "(two_cards_maximum). Which cells are left out: with several IMP:x cards the importance at a position is the "
+              "maximum of the entries (cards_rank_maximum); IMP keywords on the card take precedence over the data cards "
+              "(cellImportance, data_card_importance); for non-negative importances the maximum is zero exactly when "
+              "every particle's importance is zero (maximum_zero_iff_all_zero, keyword_importance_zero_iff) — a cell is "
+              "omitted iff its importance is zero for every particle type. The model of expand_data_card and of the "
+              "importance-card merge is compared with the code on generated and malformed token lists (values and error "
+              "class), and the importance the model gives every cell of generated decks (keywords / data cards / mixed, "
+              "1–3 particles, shorthand, any card order) with the importance the code gave it."),
         design_ref='§8 C12'),
     'C14': dict(
         technique='Lean 4 proof (char-level model of the card lexer; structural induction) + model↔code correspondence on random blocks + differential conversion of restyled decks',
